@@ -37,7 +37,7 @@ TRUSTED = [
 ]
 
 DRIVERS = {"ks": {"kind": "gotest", "pkg": "services/keepstore", "test": "TestVerifC04",
-                  "min_chunk": 150, "timeout": 5400}}
+                  "min_chunk": 150, "timeout": 9000}}
 
 VERIF = os.path.dirname(os.path.dirname(os.path.dirname(os.path.abspath(__file__))))
 MATCH = "os.,ioutil.,syscall.,io.Copy,v.os.,v.lockfile,v.lock,tmpfile.Close"
